@@ -436,6 +436,8 @@ func c02Judge(c c02Case, stream []byte) (out c02Outcome) {
 	}
 
 	differential := true
+	type c02HeldPayload struct{ got, want []byte }
+	var c02Held []c02HeldPayload
 	for frameNo := 0; frameNo < 64; frameNo++ {
 		// reference: next non-empty payload / verdict
 		var want []byte
@@ -466,6 +468,14 @@ func c02Judge(c c02Case, stream []byte) (out c02Outcome) {
 		if v := safety(r, start); v != nil {
 			out.v = v
 			return
+		}
+		// Payloads yielded earlier belong to the caller: decoding a later frame
+		// must not change them (a consumer that queues packets still holds them).
+		for i := range c02Held {
+			if !bytes.Equal(c02Held[i].got, c02Held[i].want) {
+				out.v = verifkit.Violationf("payload-mutated-by-later-decode:frame", "payload #%d yielded earlier as %s reads %s after a later Decode call (frames share a buffer)", i, c02Short(c02Held[i].want), c02Short(c02Held[i].got))
+				return
+			}
 		}
 		if !differential {
 			if r.err != nil && !errors.Is(r.err, proto.ErrDecoderLeftBytes) {
@@ -508,6 +518,7 @@ func c02Judge(c c02Case, stream []byte) (out c02Outcome) {
 				out.v = verifkit.Violationf("payload-mismatch:frame", "frame at offset %d..%d (threshold %d): gate payload %s, reference payload %s", start, ref.Pos, threshold, c02Short(got), c02Short(want))
 				return
 			}
+			c02Held = append(c02Held, c02HeldPayload{got: r.ctx.Payload, want: append([]byte(nil), want...)})
 			if rd.pos != ref.Pos {
 				out.v = verifkit.Violationf("overread:Decode", "after the frame ending at offset %d the decoder has consumed %d bytes of the transport (would block on a live socket)", ref.Pos, rd.pos)
 				return
